@@ -83,6 +83,8 @@ def coeff(rng):
         c = limb_structured(rng)
     elif k == 12:
         c = modinv_boundary(rng)[0]
+    elif k == 13 and rng.random() < 0.5:
+        c = digit_pattern(rng)
     else:
         c = rng.getrandbits(rng.randrange(1, 128))
     if c > M:
@@ -408,3 +410,28 @@ def limb_carry_pairs(rng, n=60):
         out.append(((ha << 64) | lo1, (ha << 64) | lo2))
         out.append((((ha + 1) << 64), (ha << 64) | ((1 << 64) - 1)))
     return out
+
+
+def digit_pattern(rng):
+    """Coefficients whose decimal digits follow a pattern: repdigits (777...7), a short block repeated (123123...,
+    9090...), one odd digit in a run of equal digits, ascending / descending runs, digit sums at the extremes. 1..38 digits."""
+    n = rng.randrange(1, 39)
+    k = rng.randrange(6)
+    if k == 0:
+        ds = rng.choice("123456789") * n
+    elif k == 1:
+        blk = "".join(rng.choice("0123456789") for _ in range(rng.randrange(2, 6)))
+        ds = (blk * 20)[:n]
+    elif k == 2:
+        d = rng.choice("0123456789")
+        ds = list(d * n)
+        ds[rng.randrange(n)] = rng.choice("0123456789")
+        ds = "".join(ds)
+    elif k == 3:
+        ds = ("1234567890" * 4)[:n]
+    elif k == 4:
+        ds = ("9876543210" * 4)[:n]
+    else:
+        ds = rng.choice(("9" * n, "1" + "0" * (n - 1), "1" + "0" * max(0, n - 2) + "1", "5" * n, "4" * (n - 1) + "5"))
+    c = int(ds.lstrip("0") or "0")
+    return min(c, M)
